@@ -198,7 +198,8 @@ def run(ctx):
     ctx.counted('separator runs in the pattern, however spelled, count as one', nsp, nsp_nt, [{'pattern': 'a/\\/**//**//b', 'same_as': 'a/**/**/b'}])
     # NODIR: the exclusion regex accepts exactly directory-looking paths
     import itertools
-    names = [''.join(t) for n in range(1, 6) for t in itertools.product('a./', repeat=n)]
+    names = [''.join(t) for n in range(1, 6) for t in itertools.product('a./', repeat=n)] + \
+            [''.join(t) for n in range(1, 5) for t in itertools.product('a\n/.', repeat=n) if '\n' in t]
     bad = 0
     for n in names:
         segs = [s for s in n.split('/')]
